@@ -21,7 +21,7 @@ class Ob:
     and returns an outcome dict (see ok/viol/skip)"""
 
     def __init__(self, name, fn, params=None, must_reach=(), max_paths=2000000, max_wall=3600,
-                 desc='', bounds=None, stubs=(), allow_cut=False, path_timeout=60):
+                 desc='', bounds=None, stubs=(), allow_cut=False, path_timeout=60, may_decline=False):
         self.name = name
         self.fn = fn
         self.params = params or {}
@@ -32,6 +32,11 @@ class Ob:
         self.bounds = bounds or {}
         self.stubs = list(stubs)
         self.path_timeout = path_timeout
+        # an obligation built on an abstraction that only models some idioms: if the current source uses
+        # operations outside it (Unmodelled on a path) and no path found a violation, the obligation is recorded as
+        # 'declined' (not applicable to this source) instead of making the run inconclusive -- the byte-level
+        # obligations of the same check decide
+        self.may_decline = may_decline
         self.allow_cut = allow_cut      # OutOfBound paths are a stated bound, not a failure
 
 
@@ -163,7 +168,7 @@ def run_path(ob, prefix, want_sample=False):
     except RecursionError:
         out = {'k': 'harness-error', 'why': 'RecursionError'}
     except Exception:
-        out = {'k': 'harness-error', 'why': traceback.format_exc()[-1500:]}
+        out = {'k': 'harness-error', 'why': traceback.format_exc()[-900:]}
     finally:
         signal.setitimer(signal.ITIMER_PROF, 0)
         Ctx.cur = None
